@@ -285,7 +285,11 @@ def vi_vectorised(ctx: Ctx, typer: Typer, seen: set):
         r0 = typer.roles(avi0)
         typer._memo.clear()
         if r0 is not None:
-            typer.prev_env["action_values"] = r0
+            # the loop-carried variable whose loop definition is the action-value expression itself has its roles
+            _, anode = loc_of(avi0, fi)
+            for x in walk(term):
+                if x.op == "prev" and getattr(x, "src", None) and isinstance(x.src[1], ast.Assign) and any(anode is y for y in ast.walk(x.src[1])):
+                    typer.prev_env.setdefault(x.args[0], r0)
     pol = table_data(kw["policy"])
     if sv is None or av is None or pol is None:
         raise AnalysisError("VI-vectorised: result tables not recognised")
@@ -323,8 +327,11 @@ def vi_vectorised(ctx: Ctx, typer: Typer, seen: set):
     mxs = [x for x in walk(svv) if x.op == "call" and ext_name(x.args[0]) == "numpy.max"]
     avi = strip(av)
     avi = avi.args[2] if avi.op == "where" else avi
-    typer.prev_env["action_values"] = typer.roles(avi)
     if mxs:
+        _, anode = loc_of(avi, fi)
+        for x in walk(mxs[0].args[1][0]):       # the loop-carried action values have the roles of the action values that leave the loop
+            if x.op == "prev" and getattr(x, "src", None) and isinstance(x.src[1], ast.Assign) and any(anode is y for y in ast.walk(x.src[1])):
+                typer.prev_env[x.args[0]] = typer.roles(avi)
         r = typer.roles(mxs[0].args[1][0])
         ax = kwarg_t(mxs[0], "axis")
         ok = (r[const_int(ax)] == "A") if (r is not None and ax is not None and const_int(ax) is not None) else None
@@ -580,7 +587,12 @@ def converged_rules(ctx: Ctx):
         if not kws:
             ctx.violation("BEL-5", f, f.node, f"{cls}.{meth}: converged reported", "the result carries no converged flag")
             continue
-        ok = converged_from_counter(kws[0].value, "iterations", "self.max_iterations")
+        # the counter: the only plain name in the expression, bound as the last value unpacked from the solver call
+        cand = sorted({n.id for n in ast.walk(kws[0].value) if isinstance(n, ast.Name)} - {"self"})
+        unp = [n for n in fn_body_nodes(f) if isinstance(n, ast.Assign) and isinstance(n.targets[0], ast.Tuple) and isinstance(n.value, ast.Call)
+               and isinstance(n.targets[0].elts[-1], ast.Name)]
+        counter = cand[0] if len(cand) == 1 and any(n.targets[0].elts[-1].id == cand[0] for n in unp) else None
+        ok = converged_from_counter(kws[0].value, counter, "self.max_iterations") if counter else (False if not cand else None)
         ctx.check(ok, "BEL-5", f, kws[0].value, f"{cls}.{meth}: converged <=> iterations < max_iterations - 1", ast.unparse(kws[0].value),
                   f"converged is `{ast.unparse(kws[0].value)}`; `iterations` is the 0-based index of the last pass, so convergence within the cap is "
                   f"`iterations < max_iterations - 1` (this form is true even when the budget was exhausted, or is not derived from the counter)")
